@@ -593,6 +593,42 @@ theorem tieChoice_among (votes : V) (tie : List Cand) (among : V) (h : subsetVot
   | none => simp [subsetVotes, V.items] at h
   | list _ => simp [subsetVotes, V.items] at h
 
+theorem Pointwise.imp {α β : Type} {R S : α → β → Prop} (h : ∀ x y, R x y → S x y) :
+    ∀ {l : List α} {r : List β}, Pointwise R l r → Pointwise S l r
+  | _, _, .nil => .nil
+  | _, _, .cons hxy rest => .cons (h _ _ hxy) (Pointwise.imp h rest)
+
+theorem closedList_ok (pl : V) (x y : Key × V) (h : closedList pl x = .ok y) :
+    y.1 = x.1 ∧ ∃ pld lst k, pl = .dict pld ∧ D.get? pld x.1 = some (.list lst) ∧ x.2.asNat = .ok k
+      ∧ y.2 = .list (lst.take k) ∧ (lst.take k).length = min k lst.length := by
+  unfold closedList at h
+  cases pl with
+  | dict pld =>
+    simp only [pure_bind] at h
+    cases hg : D.get? pld x.1 with
+    | none => simp [hg] at h; cases h
+    | some lv =>
+      cases lv with
+      | list lst =>
+        simp only [hg] at h
+        cases hk : x.2.asNat with
+        | error e => rw [hk] at h; cases h
+        | ok k =>
+          rw [hk] at h
+          have : y = (x.1, V.list (lst.take k)) := by cases h; rfl
+          subst this
+          exact ⟨rfl, pld, lst, k, rfl, hg, rfl, rfl, List.length_take⟩
+      | num _ => simp [hg] at h; cases h
+      | cand _ => simp [hg] at h; cases h
+      | tie _ => simp [hg] at h; cases h
+      | none => simp [hg] at h; cases h
+      | dict _ => simp [hg] at h; cases h
+  | num _ => cases h
+  | cand _ => cases h
+  | tie _ => cases h
+  | none => cases h
+  | list _ => cases h
+
 /-- party-list evaluation seats exactly as many list candidates as the party won: with closed lists the
     result has one entry per party of the party result, namely the first `k` candidates of the party's
     list, `k` the party's seats (the whole list when it is shorter) -/
@@ -613,7 +649,7 @@ theorem partyList_seats_exactly (P : Sem) (c : Option (V → Except Err V)) (a :
     | none => rw [hpl] at h; cases h
     | some pl =>
       rw [hpl] at h
-      simp only [ok_bind] at h
+      simp only [pure_bind] at h
       cases hw : P { votes := a.votes, n := some n, prev := a.prev, max := a.max } with
       | error e => rw [hw] at h; cases h
       | ok wv =>
@@ -623,54 +659,14 @@ theorem partyList_seats_exactly (P : Sem) (c : Option (V → Except Err V)) (a :
         | dict won =>
           simp only [V.items, ok_bind] at h
           by_cases hlv : (a.lv.getD V.none).truthy = true
-          · simp [hlv] at h; cases h
+          · simp [hlv] at h
           · simp only [hlv] at h
-            cases hm : won.mapM (fun p => do
-                let pld ← match pl with
-                  | .dict d => pure d
-                  | _ => throw eType
-                let lst ← match D.get? pld p.1 with
-                  | some (.list l) => pure l
-                  | some _ => throw eType
-                  | Option.none => throw eKey
-                let k ← p.2.asNat
-                pure (p.1, V.list (lst.take k))) with
+            cases hm : won.mapM (closedList pl) with
             | error e => simp [hm] at h; cases h
             | ok rs =>
               simp [hm] at h
-              refine ⟨n, pl, won, rs, rfl, rfl, rfl, (by cases h; rfl), ?_⟩
-              have hp := mapM_ok_forall₂ hm
-              clear hm h
-              induction hp with
-              | nil => exact .nil
-              | @cons x y xs ys hxy _ ih =>
-                refine .cons ?_ ih
-                cases pl with
-                | dict pld =>
-                  simp only [ok_bind] at hxy
-                  cases hg : D.get? pld x.1 with
-                  | none => simp [hg] at hxy; cases hxy
-                  | some lv =>
-                    cases lv with
-                    | list lst =>
-                      simp only [hg, ok_bind] at hxy
-                      cases hk : x.2.asNat with
-                      | error e => rw [hk] at hxy; cases hxy
-                      | ok k =>
-                        rw [hk] at hxy
-                        have : y = (x.1, V.list (lst.take k)) := by cases hxy; rfl
-                        subst this
-                        exact ⟨rfl, pld, lst, k, rfl, rfl, hk, rfl, List.length_take⟩
-                    | num _ => simp [hg] at hxy; cases hxy
-                    | cand _ => simp [hg] at hxy; cases hxy
-                    | tie _ => simp [hg] at hxy; cases hxy
-                    | none => simp [hg] at hxy; cases hxy
-                    | dict _ => simp [hg] at hxy; cases hxy
-                | num _ => cases hxy
-                | cand _ => cases hxy
-                | tie _ => cases hxy
-                | none => cases hxy
-                | list _ => cases hxy
+              exact ⟨n, pl, won, rs, rfl, rfl, hw, (by cases h; rfl),
+                Pointwise.imp (closedList_ok pl) (mapM_ok_forall₂ hm)⟩
         | num _ => cases h
         | cand _ => cases h
         | tie _ => cases h
